@@ -53,6 +53,15 @@ var Meta = map[string]PropMeta{
 		Thorough:  q(30000, 20*time.Minute),
 		EnumTotal: 63504,
 	},
+	"C03": {
+		Level:     "fault_enumeration",
+		Technique: "deterministic simulation with fault injection: single-bit flips in flight addressed protocol-relative (token word / literal byte / trailer byte of a given file, located by decoding the fault-free run's wire history), an external writer mutating the basis between signature generation and reconstruction (at a scheduler step), and a reference sender that describes other bytes than its (true) trailer claims",
+		Rule:      "wire mode: 1-3 files of the shapes whole-file / mixed delta / pure delta, real sender and real receiver in pull and push (A1, A2, A3 both ways); a fault-free run is decoded to enumerate all token-word, literal and trailer byte positions; then 10 (thorough: 60) single faults per scenario: bit flip at a drawn position of a drawn class (token words: bits 0-10,12,16,20,31), or basis mutation at a drawn step. Oracle after each faulted run: every listed file holds its previous content (or the externally written one) or exactly the sender's content; a session reporting success has updated every file the rule requires. script mode (every 5th run): reference sender answers with the honest token stream perturbed (other valid block index, literal runs swapped/duplicated, token dropped, truncated) but the TRUE whole-file checksum: destination must stay unchanged and the client must fail. Non-trivial = at least one fault run on a session with data replies / a perturbation denoting different bytes",
+		Assumptions: []string{"flips of token-word bits that declare hundreds of megabytes are not generated (resource exhaustion is outside the guarantee)", "index-word and sum-head flips are outside the property's quantifier (token words, literal bytes, trailer)", "wire bytes are identical between the fault-free and the faulted run of one process (same checksum seed inside the bubble)"},
+		Real:      realCommon, Stub: append([]string{"script mode: sending peer is the reference sender"}, stubCommon...),
+		Quick:     q(150, 60*time.Second),
+		Thorough:  q(5000, 25*time.Minute),
+	},
 	"C04": {
 		Level:     "fault_enumeration",
 		Technique: "deterministic simulation with fault injection: step invariant (old-or-new at every quiescent point = crash point at wire-token granularity), freeze (crash) and connection-cut faults at byte offsets of either direction, leftover-temp check after error returns",
@@ -134,6 +143,15 @@ var Meta = map[string]PropMeta{
 		Real:      realCommon, Stub: append([]string{"mode ref: receiving peer is the reference receiver"}, stubCommon...),
 		Quick:     q(200, 50*time.Second),
 		Thorough:  q(8000, 20*time.Minute),
+	},
+	"C17": {
+		Level:     "exploration",
+		Technique: "deterministic simulation with a re-framing middlebox on the server-to-client direction (a fault-injecting transport stage): the real server's multiplexed output is decoded and re-cut into other legal frames with info frames, empty frames and an optional error frame, causally (only bytes already emitted are re-cut); differential oracle against the un-reframed run of the same scenario",
+		Rule:      "sessions A1/A3 pull and A2/A3 push (server output = data or requests) on random trees with delta bases; re-framing: maximum data-frame size from {1,2,3,5,7,64,1000,4096,32768,65536,262144}, cut style uniform / always-max / always-1 / ending inside 4-byte words, info-frame runs of up to 1/3/120/500 before data frames with probability 0/5/30/100 %, empty data frames, in a fifth of the runs an error frame with a known message after a drawn number of data bytes. Oracle: same destination tree as the un-reframed run and success; with an error frame the client fails and its error carries the server's message. Every frame of the real server in the baseline run is checked: known tag, length <= 256 KiB, concatenated payloads parse as a valid protocol-27 sender stream. Non-trivial = more than 10 re-cut data frames or an error frame surfaced",
+		Assumptions: []string{"frame sizes above 256 KiB are not generated: the client documents that limit and no known rsync sends them"},
+		Real:      realCommon, Stub: append([]string{"middlebox (harness) between server and client"}, stubCommon...),
+		Quick:     q(300, 50*time.Second),
+		Thorough:  q(10000, 20*time.Minute),
 	},
 	"C18": {
 		Level:     "exploration",
